@@ -1,5 +1,6 @@
 import DispatchVerif.Core.IoP4
 import DispatchVerif.Core.IoW2
+import DispatchVerif.Core.IoCh
 /-! # C14 — dispatch I/O delivers every byte once, in order; each operation completes once (read and write paths)
 
 `IoP` models one stream READ operation of `src/io.c`: the buffer sizing at the top of `_dispatch_operation_perform`,
@@ -8,8 +9,10 @@ the outcome of `read()`, `_dispatch_operation_deliver_data` with its flags, the 
 **every** sequence of outcomes the kernel may produce (any number of bytes between 1 and the length passed to `read`,
 EOF, EAGAIN, an error). The check replays the outcomes the kernel actually produced on real pipes — with short
 reads, EAGAIN and EOF — through `IoP.handle` and compares the requested length of every `read()` and every handler
-invocation. Channel-level clauses (submission order, barrier, close → ECANCELED, cleanup once, write conservation)
-are observed by the oracle on the real library. -/
+invocation. The barrier clause is proved over `IoCh` (the channel's and the descriptor's serial queues as one FIFO, the barrier
+group, suspension of the barrier queue) and the recorded history of real channels is replayed through `IoCh.exec`. The other
+channel-level clauses (submission order of stream operations, close → ECANCELED, cleanup once) are observed by the oracle on
+the real library. -/
 namespace C14
 open IoP
 
@@ -65,5 +68,19 @@ theorem write_len_pos {orig : List IoW.Byte} {op : IoW.Op} (h : IoW.Inv orig op 
 example : ((IoW.run (IoW.fresh [[0,1,2,3,4,5],[6,7,8,9,10,11],[12,13,14,15,16,17],[18,19,20,21,22,23]] 8 10 1048576)
     [.wrote 6, .wrote 6, .wrote 6, .wrote 6]).2.1.map fun kc => (kc.1, kc.2.done, kc.2.rem.map List.length))
     = [(12, false, some 12), (24, true, none)] := by decide
+
+/-! ## orchestration (`IoCh`): a barrier runs between the operations submitted before and after it -/
+
+/-- **when the block of barrier `j` runs, every operation submitted before `j` has been disposed of and no operation submitted
+    after `j` has been handed to the descriptor** - for every history of submissions and completions. `pre` / `post` are what
+    was submitted before / after the barrier; the hypotheses are the state in which the group notification fires. -/
+theorem barrier_runs_between {s : IoCh.St} (h : IoCh.Reachable s) (j : Nat) (hn : s.notif = some j) (he : s.inflight = [])
+    (pre post : List IoCh.Act) (hsplit : s.subs = pre ++ IoCh.Act.bar j :: post) :
+    (∀ i, IoCh.Act.op i ∈ pre → i ∈ s.dones) ∧ (∀ i, IoCh.Act.op i ∈ post → i ∉ s.enq) :=
+  IoCh.barrier_between h j hn he pre post hsplit
+
+/-- every move of the trace replay is a step of that model -/
+theorem barrier_replay_sound (s s' : IoCh.St) (e : IoCh.Ev) (h : IoCh.exec s e = some s') : IoCh.Step s s' ∨ s' = s :=
+  IoCh.exec_sound s s' e h
 
 end C14
